@@ -191,6 +191,7 @@ def run(tier, seed, replay):
             alv = '(VOpt None)' if f['alo'] == '-' else '(VOpt (Some (VTup [VInt %s; VInt %s])))' % (f['alo'], f['all'])
             pairs.append((k, 'call g_L2Entry_allocation [VInt %d; VInt %d]' % (v, cb), '(Ret %s)' % alv))
             pairs.append((k, 'call g_L2Entry_reserved_bits [VInt %d]' % v, '(Ret (VInt %s))' % f['res']))
+            verdicts.append((k, 'alloc_verdict %d %d %s' % (cb, v, 'None' if f['alo'] == '-' else '(Some (%s, %s))' % (f['alo'], f['all']))))
             verdicts.append((k, 'l2_verdict %d %s %d %d %s %s %s %s %s' % (
                 cb, 'true' if g[3] else 'false', v, gv, f['src'], optN(f['moff']), optN(f['mlen']),
                 'true' if f['mcop'] == '1' else 'false', 'None' if f['fm'] == 'panic' else '(Some %s)' % f['fm'])))
